@@ -272,6 +272,39 @@ const ezc3d::DataNS::Data& ezc3d::c3d::data() const
     return *_data;
 }
 
+// The POINT and ANALOG parameters that the library reads and rewrites itself when frames, points or channels
+// are added must keep the type it expects, otherwise these calls would stop half-way later on
+static void checkTypeOfMaintainedParameter(const std::string &groupName, const ezc3d::ParametersNS::GroupNS::Parameter &p)
+{
+    bool isPoint(!groupName.compare("POINT")), isAnalog(!groupName.compare("ANALOG"));
+    if (!isPoint && !isAnalog)
+        return;
+    const std::string& name(p.name());
+    ezc3d::DATA_TYPE expected(ezc3d::DATA_TYPE::NONE);
+    bool needsValue(false);
+    if (!name.compare("USED") || (isPoint && !name.compare("FRAMES"))){
+        expected = ezc3d::DATA_TYPE::INT;
+        needsValue = true;
+    } else if (!name.compare("RATE")){
+        expected = ezc3d::DATA_TYPE::FLOAT;
+        needsValue = true;
+    } else if (!name.compare("LABELS") || !name.compare("DESCRIPTIONS") || !name.compare("UNITS"))
+        expected = ezc3d::DATA_TYPE::CHAR;
+    else if (isAnalog && !name.compare("SCALE"))
+        expected = ezc3d::DATA_TYPE::FLOAT;
+    else if (isAnalog && !name.compare("OFFSET"))
+        expected = ezc3d::DATA_TYPE::INT;
+    if (expected == ezc3d::DATA_TYPE::NONE)
+        return;
+    if (p.type() != expected)
+        throw std::invalid_argument(groupName + ":" + name + " is kept up to date by ezc3d and cannot change its data type");
+    size_t nValues(1);
+    for (size_t i = 0; i < p.dimension().size(); ++i)
+        nValues *= p.dimension()[i];
+    if (needsValue && nValues == 0)
+        throw std::invalid_argument(groupName + ":" + name + " must hold a value");
+}
+
 void ezc3d::c3d::parameter(const std::string &groupName, const ezc3d::ParametersNS::GroupNS::Parameter &p)
 {
     if (!p.name().compare("")){
@@ -280,6 +313,7 @@ void ezc3d::c3d::parameter(const std::string &groupName, const ezc3d::Parameters
     // Refuse the parameter before the group is created, so a refused call leaves no empty group behind
     if (p.type() == ezc3d::DATA_TYPE::NONE)
         throw std::runtime_error("Data type is not set");
+    checkTypeOfMaintainedParameter(groupName, p);
 
     // Keep the parameters and the header, so the edit can be undone as a whole if the header cannot follow it
     ezc3d::ParametersNS::Parameters previousParameters(parameters());
